@@ -19,7 +19,6 @@ Proof. vm_compute. discriminate. Qed.
 Lemma c08_maxLookups_le : c08_maxLookups <= 65536.
 Proof. vm_compute. discriminate. Qed.
 
-Definition starts (data : list N) (p : N) (x : list N) : Prop := exists rest, seek data p = x ++ rest.
 
 (* ------------------------------------------------------------------ *)
 (* total size                                                          *)
